@@ -1,5 +1,7 @@
 //! Helpers shared by the structural property binaries.
 
+pub mod views;
+
 use stateright::{Checker, Model, Property};
 use std::fmt::Debug;
 use std::hash::Hash;
